@@ -364,6 +364,27 @@ def run(chk, repo, tier):
                 chk.ob('C08-e', 'E-who-writes', key, f'store to .{node.attr}', ok,
                        allowed.get(key, f'`{seg(f, node)}` writes a plane type outside the validated sites'),
                        f.loc(node))
+    # a new wavefront has the type it is given - on every path of the constructor, whatever its other arguments are: every
+    # product is built through the constructor (Wavefront.empty), so a type derived from, say, the focal length rewrites the
+    # result of the multiplication table
+    fwi = repo.func('wavefront.Wavefront.__init__')
+    _, ipaths, _ = analyse(repo, fwi)
+    given = nf.app('call:ptype.ptype', Tup([Const('ptype'), S('ptype')]))
+    okc, detc, nc_ = True, '', 0
+    for p in ipaths:
+        if p.status == 'raise':
+            continue
+        st_ = [e for e in p.events if e.kind == 'write' and e.data.get('how') == 'attrstore' and e.data.get('attr') in ('ptype', '_ptype')
+               and e.target == S('self')]
+        if not st_:
+            continue
+        nc_ += 1
+        v_ = st_[-1].data.get('value')
+        if v_ != given and v_ != S('ptype'):
+            okc = False
+            detc = f'a path stores ptype = {fmt(v_)[:60]} [{conds_str(p)[-120:]}]: not the type the constructor was given'
+    chk.ob('C08-e', 'T-override', fwi.key, 'a new wavefront carries the plane type it was given', (okc and nc_ > 0) if nc_ or not okc else None,
+           detc or f'{nc_} path(s) store ptype(ptype)', fwi.loc())
     fim = repo.func('plane.Image.multiply')
     for node in ast.walk(fim.node):
         if isinstance(node, ast.Assign) and any(isinstance(t, ast.Attribute) and t.attr == 'ptype' for t in node.targets):
